@@ -185,6 +185,10 @@ func dbg(format string, args ...interface{}) {
 func init() {
 	p := rosmarPath + "."
 	stubs[p+"verifExplore"] = func(e *Exec, th *Thread, c *CallCtx, a []Val) StubRes {
+		if n := e.concreteInt(a[0], "preemption bound"); n < 0 {
+			e.explore = false // back to the deterministic schedule (lowest thread id first)
+			return ret(nil)
+		}
 		e.explore = true
 		e.preemptBound = e.concreteInt(a[0], "preemption bound")
 		e.symOnly = true // schedules are not replayed natively
